@@ -415,6 +415,26 @@ func buildC18(tier string) *core.Plan {
 					cases = append(cases, c18Case{r, sp, v, true, "outside", false, ext})
 				}
 				cases = append(cases, c18Case{r, sp, v, false, "outside", false, "json"})
+				if tier == "thorough" {
+					// the full product: every format also towards the sibling directory and as in-root twin, and -P in every format
+					viaInput := false
+					switch c18Vectors[v].Name {
+					case "file-symlink-relative", "file-symlink-chained", "dir-symlink-input-path", "input-path", "virtual-extension":
+						viaInput = true // (-P switches inheritance off: only vectors that escape through the input path still escape)
+					}
+					for _, ext := range []string{"json", "toml", "jsonl"} {
+						cases = append(cases, c18Case{r, sp, v, true, "root-x", false, ext})
+						if viaInput {
+							cases = append(cases, c18Case{r, sp, v, true, "outside", true, ext})
+						}
+						if ext != "json" {
+							cases = append(cases, c18Case{r, sp, v, false, "outside", false, ext})
+						}
+					}
+					if viaInput {
+						cases = append(cases, c18Case{r, sp, v, true, "root-x", true, ""})
+					}
+				}
 				switch c18Vectors[v].Name {
 				case "file-symlink-relative", "file-symlink-chained", "dir-symlink-input-path", "input-path", "virtual-extension":
 					// these reach the decoy through the input path itself, so they also work with -P
